@@ -76,10 +76,12 @@ type sched struct {
 	failBudget    int
 	badconnBudget int
 	parkHooks     bool
+	// badconnTxFirst: the ErrBadConn budget is spent on the first statement executed inside a transaction
+	badconnTxFirst bool
 
 	verbose    bool
-	systematic bool // beyond the forced prefix always take the first option (enumeration)
-	lastCtl *ctlAction // offered only when no other controller action is left
+	systematic bool       // beyond the forced prefix always take the first option (enumeration)
+	lastCtl    *ctlAction // offered only when no other controller action is left
 
 	// choice control (forced prefix for systematic enumeration)
 	forced  []int
@@ -327,9 +329,9 @@ func (s *sched) run(ctl []ctlAction) (stuck string) {
 				s.prepFailed[g.query]++
 				rel = e
 				decision = e.Error()
-			} else if (g.kind == "stmt-exec" || g.kind == "stmt-query") && !g.tx && s.badconnBudget > 0 && s.choose(6) == 0 {
+			} else if (g.kind == "stmt-exec" || g.kind == "stmt-query") && s.badconnBudget > 0 && ((s.badconnTxFirst && g.tx) || (!s.badconnTxFirst && s.choose(6) == 0)) {
 				s.badconnBudget--
-				s.badconn[g.worker] = 4 // database/sql retries: fail them all
+				s.badconn[g.worker] = 2 // database/sql retries the call twice more (also inside a transaction): fail those too
 				s.badconnHit[g.worker] = true
 				rel = driver.ErrBadConn
 				decision = "ErrBadConn (and the retries)"
